@@ -3,13 +3,101 @@ from .. import common as C, generic as G
 
 TRUSTED = ['Coq 8.16.1 kernel + vm_compute', 'translator/fragments.py + translator/tables.py (the clip idioms and return sites regenerated from trust_region.py / util.py)', 'Coq Reals for the exact-arithmetic statements (rounding not modelled); OrdLaws/Flocq for the exact box statements', 'oracle harness harness/oracles/C13.py']
 PERRUN = ['Char_model.v', 'C15.v', 'C13.v']
-GEN = ('Gen_util', 'Gen_model', 'Gen_tables')
+GEN = ('Gen_util', 'Gen_model', 'Gen_trust_region', 'Gen_tables')
 LEVEL = 'other'
 EXPLANATION = 'obligations: translation of the anchored functions + theorems listed in coverage.theorems; the remaining clauses are validated by the oracle sweep only'
 
 
+GEOM_V = r"""
+From Coq Require Import ZArith List Bool String.
+Require Import DV.Base.Prelude DV.Base.F64 DV.Spec.Schema DV.Lib.Corr.
+From G Require Import Gen_util Gen_trust_region.
+Import ListNotations.
+Open Scope Z_scope.
+Definition geom_case (xbase : list F) (c : F) (g lower upper : list F) (Delta : F) : Z :=
+  match @py_trust_region_trsbox_geometry ArithF64 xbase c g lower upper Delta with Ok r => hashZ (fl_vec r) | Err _ => -1 end.
+Definition lin_case (g a b : list F) (Delta : F) : Z :=
+  match @py_trust_region_trsbox_linear ArithF64 g a b Delta with Ok r => hashZ (fl_vec r) | Err _ => -1 end.
+"""
+
+
+def geom_task(args):
+    """trsbox_geometry / trsbox_linear of the implementation (sequential dot and norm in place of BLAS, x*x in place of libm's
+    pow(x, 2) for the two scalar squares in ball_step) on the oracle's own cases"""
+    seed, count = args
+    import numpy as np
+    import dfols.trust_region as tr
+    from ..oracles import C13 as O
+    from .. import modelio as IO
+    assert tr.USE_FORTRAN is False, 'the model covers the pure-Python path only (trustregion package absent)'
+    rng = np.random.default_rng(seed)
+    out = []
+    saved = tr.np
+    tr.np = IO.NpProxy()
+    try:
+        for k in range(count):
+            cs = O.gen_geom(rng)
+            with np.errstate(all='ignore'):
+                if k % 3 == 2:
+                    # the linear solver alone, on bounds that need not contain zero
+                    a = cs['lower'] - cs['xbase'] + (rng.standard_normal(cs['g'].size) * cs['Delta'] if rng.random() < 0.3 else 0.0)
+                    b = cs['upper'] - cs['xbase']
+                    try:
+                        r = IO.hashZ(IO.fl_vec(tr.trsbox_linear(cs['g'].copy(), a.copy(), b.copy(), IO.SqF(cs['Delta']), use_fortran=False)))
+                    except Exception:
+                        r = -1
+                    out.append(('lin', cs['g'], a, b, cs['Delta'], r))
+                else:
+                    xb = cs['xbase'] + (rng.standard_normal(cs['g'].size) * 1e-14 if rng.random() < 0.1 else 0.0)     # around the assert's slack
+                    try:
+                        r = IO.hashZ(IO.fl_vec(tr.trsbox_geometry(xb.copy(), cs['c'], cs['g'].copy(), cs['lower'].copy(), cs['upper'].copy(), IO.SqF(cs['Delta']), use_fortran=False)))
+                    except Exception:
+                        r = -1
+                    out.append(('geom', xb, cs['c'], cs['g'], cs['lower'], cs['upper'], cs['Delta'], r))
+    finally:
+        tr.np = saved
+    return out
+
+
+def correspondence(ctx):
+    from .. import modelio as IO
+    res = C.parallel(geom_task, [(ctx.seed * 67 + i + 5, ctx.scale(90, 900)) for i in range(16)], timeout_each=600)
+    cases = []
+    for t, st, r in res:
+        if st != 'ok':
+            ctx.oblige('correspondence:trsbox_geometry', False, 'implementation side failed: %s %s' % (st, r))
+            return
+        cases += r
+    body = GEOM_V + 'Definition exp_ : list Z := [' + '; '.join(C.zlit(c[-1]) for c in cases) + '].\n'
+    terms = []
+    for c in cases:
+        if c[0] == 'lin':
+            terms.append('lin_case %s %s %s %s' % (IO.vlit(c[1]), IO.vlit(c[2]), IO.vlit(c[3]), IO.flit(c[4])))
+        else:
+            terms.append('geom_case %s %s %s %s %s %s' % (IO.vlit(c[1]), IO.flit(c[2]), IO.vlit(c[3]), IO.vlit(c[4]), IO.vlit(c[5]), IO.flit(c[6])))
+    body += 'Definition got_ : list Z := [' + ';\n'.join(terms) + '].\n'
+    body += 'Eval vm_compute in map (fun p => if Z.eqb (fst p) (snd p) then 1 else 0) (combine got_ exp_).\n'
+    ok, out = C.coq_eval(ctx, 'cases_geom', body, '')
+    if not ok:
+        ctx.oblige('correspondence:trsbox_geometry', False, C.first_error(out))
+        return
+    ls = C.parse_eval_lists(out)
+    flags = ls[0] if ls else []
+    bad = [i for i, f in enumerate(flags) if f != 1]
+    ctx.cov['geometry_calls_compared'] = len(flags)
+    ctx.cov['geometry_calls_rejected_by_assert'] = sum(1 for c in cases if c[-1] == -1)
+    if len(flags) != len(cases) or not cases:
+        ctx.oblige('correspondence:trsbox_geometry', False, 'evaluated %d of %d cases' % (len(flags), len(cases)))
+    elif bad:
+        c = cases[bad[0]]
+        ctx.oblige('correspondence:trsbox_geometry[%d]' % bad[0], False, 'regenerated %s and the implementation differ on %d of %d cases, first: %s' % (
+            'trsbox_linear' if c[0] == 'lin' else 'trsbox_geometry', len(bad), len(cases), [getattr(v, 'tolist', lambda: v)() for v in c[1:-1]]))
+    else:
+        ctx.oblige('correspondence:trsbox_geometry/trsbox_linear/ball_step(%d cases, returned point bit-exact on binary64)' % len(cases), True)
+
+
 def run(ctx):
-    return G.run(ctx, 'C13', LEVEL, GEN, PERRUN, TRUSTED, explanation=EXPLANATION)
+    return G.run(ctx, 'C13', LEVEL, GEN, PERRUN, TRUSTED, explanation=EXPLANATION, correspondence=correspondence, corr_needs=[])
 
 
 def replay(payload):
